@@ -15,8 +15,35 @@ ALPHA = ["'", '"', "a", "s", " ", ".", "\n", "—", "{", "%", "}"]
 CURLY = {"'": "‘’", '"': "“”"}
 
 
+REPRO = {
+    "D-82": "See [the \"big\" page] for more.\n\n[the \"big\" page]: http://x.com\n",
+}
+
+
 def classify(kf, rec):
+    c = rec["case"]
+    if kf.get("classifier") == "shortcut-reference-label-with-quotes":
+        # a shortcut / collapsed reference whose label holds a convertible quote: with the option on the link text no longer
+        # equals the label and the full form [text][label] is written
+        import re
+        doc = c.get("doc", "")
+        labels = re.findall(r"^ {0,3}\[([^\]^][^\]]*)\]:", doc, flags=re.M)
+        return "length" in rec["what"] and any(("'" in l or '"' in l) and ("[" + l + "]") in doc.replace("[" + l + "]:", "") for l in labels)
     return False
+
+
+# template tags and HTML comments as the property text names them; deliberately NOT the implementation's TEMPLATE_TAG_PATTERN, so that a
+# change to that pattern cannot blind the oracle
+import re as _re
+SPEC_TAG = _re.compile(r"\{%.*?%\}|\{#.*?#\}|\{\{.*?\}\}|<!--.*?-->", _re.S)
+
+
+def tags_fixed(a: str, b: str) -> str | None:
+    """a, b of equal length: every tag of a is found unchanged at the same position in b"""
+    for m in SPEC_TAG.finditer(a):
+        if b[m.start():m.end()] != m.group(0):
+            return f"template tag {m.group(0)!r} changed to {b[m.start():m.end()]!r}"
+    return None
 
 
 def pointwise_ok(a: str, b: str) -> str | None:
@@ -37,9 +64,15 @@ def gen_quote_text(rng) -> str:
         elif r < 0.6:
             words.append(rng.choice(["\"hi\"", "'x'", "it's", "James'", "\"a", "b\"", "'tis", "x=\"y\"", "(\"p\")", "—\"d\"", "\"q\",", "'s'.", "don't", "\"", "'", "''", "\"\"", "a'b'c", "“c”", "‘d’", "\\\"e\\\""]))
         elif r < 0.75:
-            words.append(rng.choice(G.TAGS + ["{% t a=\"b\" c='d' %}", "<!-- it's \"x\" -->", "{{ v|default('x') }}", "{# don't #}"]))
+            words.append(rng.choice(G.TAGS + ["{% t a=\"b\" c='d' %}", "<!-- it's \"x\" -->", "{{ v|default('x') }}", "{# don't #}",
+                                              # tags whose body holds the closing delimiter's first character
+                                              "{% if i % 2 == \"a b\" %}", "{% set w = \"50%\" %}", "{% x % 'b c' %}", "{{ a } \"b c\" }}", "{# 50% 'off' # now #}", "<!-- a - \"b c\" -- d -->"]))
         elif r < 0.85:
             words.append(rng.choice(G.ATOMS + ["`it's`", "[l's](u'v \"t\")"]))
+        elif r < 0.92:
+            # sentence ends next to quotes (semantic breaks must not depend on the quote style), escapes at a line start
+            words.append(rng.choice(["he said \"word\". Then it", "it was 'so'. And then", "\"The end.\" Next one", "called \"it\"! Now go", "(\"why\"?) Because so",
+                                     "the room\n12\\. Bring it", "see\n1\\. 'first' thing", "go\n\\- \"dash\" word"]))
         else:
             words.append(rng.choice(G.SENT_WORDS + G.HAZARD_WORDS))
     seps = [" ", " ", " ", "\n", "  ", "\n\n", "", "\t"]
@@ -106,9 +139,7 @@ def run(chk: Check) -> None:
             chk.nontrivial(c["t"])
         why = pointwise_ok(c["t"], o)
         if why is None:
-            for m in TEMPLATE_TAG_PATTERN.finditer(c["t"]):
-                if o[m.start():m.end()] != m.group(0):
-                    why = f"template tag {m.group(0)!r} changed"
+            why = tags_fixed(c["t"], o)
         if why:
             nb += 1
             chk.fail("property", {"text": c["t"], "out": o}, "smart_quotes is not a pointwise quote-only rewrite: " + why, classify)
@@ -126,6 +157,8 @@ def run(chk: Check) -> None:
             chk.nontrivial(doc)
         why = pointwise_ok(off, on)
         if why is None:
+            why = tags_fixed(off, on)
+        if why is None:
             # protected content: parse both outputs; everything that is not prose text must be identical
             try:
                 ta, tb = mdast.doc_tree(off), mdast.doc_tree(on)
@@ -141,6 +174,13 @@ def run(chk: Check) -> None:
             chk.fail("property", {"doc": doc, "opts": o, "off": off, "on": on}, "smartquotes on vs off: " + why, classify)
         if i < 2:
             chk.sample({"doc": doc[:200], "opts": o, "on": on[:200]})
+    for fid, doc in REPRO.items():
+        o = dict(width=88, semantic=False, cleanups=False, ellipses=False)
+        off, on = reformat_text(doc, smartquotes=False, **o), reformat_text(doc, smartquotes=True, **o)
+        why = pointwise_ok(off, on)
+        chk.count()
+        if why:
+            chk.fail("property", {"doc": doc, "opts": o, "off": off, "on": on, "repro": fid}, "smartquotes on vs off: " + why, classify)
     chk.port_stat("spec: reformat_text(smartquotes on) vs off", nd, nbd)
 
 
